@@ -308,20 +308,27 @@ def rule_mode(ctx, px):
     f = px.func(RUN_MOD, "ArgparseRunner._build_post_processor_list_from_args")
 
     def entries(fn, e, depth=0):
-        """the list an expression denotes as an ordered sequence of (element expression, guards under which it is added, statement), or None
-        when it cannot be followed: list literals, a local that is initialised and then appended to, `a + b`, the result of a private method"""
+        """the lists an expression can denote, one ordered sequence of (element expression, guards under which it is added, statement) per
+        alternative (a private builder with several returns gives one alternative per return), or None when it cannot be followed: list
+        literals, a local that is initialised and then appended to, `a + b`, the result of a private method"""
         if depth > 4:
             return None
         if isinstance(e, ast.List):
-            return [(x, (), e) for x in e.elts]
+            return [[(pyfront.subst_locals(fn.node, x), (), e) for x in e.elts]]
         if isinstance(e, ast.BinOp) and isinstance(e.op, ast.Add):
-            a, b = entries(fn, e.left, depth + 1), entries(fn, e.right, depth + 1)
-            return None if a is None or b is None else a + b
+            a_, b_ = entries(fn, e.left, depth + 1), entries(fn, e.right, depth + 1)
+            return None if a_ is None or b_ is None else [x + y for x in a_ for y in b_][:16]
         if isinstance(e, ast.Call) and isinstance(e.func, ast.Attribute) and isinstance(e.func.value, ast.Name) and e.func.value.id in ("self", "cls") \
                 and fn.cls is not None and e.func.attr in fn.cls.methods and not e.args and not e.keywords:
             h = fn.cls.methods[e.func.attr]
             rets_ = [r.value for r in ast.walk(h.node) if isinstance(r, ast.Return) and r.value is not None]
-            return entries(h, rets_[0], depth + 1) if len(rets_) == 1 else None
+            alts = []
+            for rv in rets_:
+                sub = entries(h, rv, depth + 1)
+                if sub is None:
+                    return None
+                alts += sub
+            return alts[:16] or None
         if isinstance(e, ast.Call) and isinstance(e.func, ast.Name) and e.func.id == "list" and len(e.args) == 1:
             return entries(fn, e.args[0], depth + 1)
         if isinstance(e, ast.Name):
@@ -338,32 +345,32 @@ def rule_mode(ctx, px):
                         and isinstance(st.value.func.value, ast.Name) and st.value.func.value.id == e.id and out is not None:
                     c = st.value
                     if c.func.attr == "append" and len(c.args) == 1:
-                        out = out + [(c.args[0], tuple(g), st)]
+                        out = [alt + [(pyfront.subst_locals(fn.node, c.args[0]), tuple(g), st)] for alt in out]
                     elif c.func.attr == "insert" and len(c.args) == 2 and isinstance(c.args[0], ast.Constant) and c.args[0].value == 0:
-                        out = [(c.args[1], tuple(g), st)] + out
+                        out = [[(pyfront.subst_locals(fn.node, c.args[1]), tuple(g), st)] + alt for alt in out]
                     elif c.func.attr == "extend" and len(c.args) == 1:
                         sub = entries(fn, c.args[0], depth + 1)
                         if sub is None:
                             return None
-                        out = out + [(x, tuple(g) + tuple(g2), st) for x, g2, _s in sub]
+                        out = [alt + [(x, tuple(g) + tuple(g2), st) for x, g2, _s in sa] for alt in out for sa in sub][:16]
                     else:
                         return None
                 elif isinstance(st, ast.AugAssign) and isinstance(st.target, ast.Name) and st.target.id == e.id and isinstance(st.op, ast.Add) and out is not None:
                     sub = entries(fn, st.value, depth + 1)
                     if sub is None:
                         return None
-                    out = out + [(x, tuple(g) + tuple(g2), st) for x, g2, _s in sub]
+                    out = [alt + [(x, tuple(g) + tuple(g2), st) for x, g2, _s in sa] for alt in out for sa in sub][:16]
             return out
         return None
 
     rets = [r for r in ast.walk(f.node) if isinstance(r, ast.Return) and r.value is not None]
-    seq = entries(f, rets[0].value) if len(rets) == 1 else None
-    ok = seq is not None
+    seqs = entries(f, rets[0].value) if len(rets) == 1 else None
+    ok = seqs is not None
     ctx.ob(R, f.module.rel, f"{f.short} :: returns the list it built", ok, "" if ok else "the returned value is not a list built from literals, appends, concatenations or private builders", f.node.lineno)
-    if seq is not None:
+    for seq in (seqs or []):
         sfm = [k for k, (x, g, st) in enumerate(seq) if "SetFileMode(" in ast.unparse(x)]
         if not sfm:
-            ctx.ob(R, f.module.rel, f"{f.short} :: SetFileMode appended", False, "SetFileMode is no longer added", f.node.lineno)
+            ctx.ob(R, f.module.rel, f"{f.short} :: SetFileMode appended", False, "SetFileMode is no longer added" + (" in one of the lists the builder can return" if len(seqs) > 1 else ""), f.node.lineno)
         else:
             x, g, st = seq[sfm[-1]]
             ctx.ob(R, f.module.rel, f"{f.short} :: SetFileMode appended unconditionally", len(g) == 0,
